@@ -22,7 +22,7 @@ RULE = ("Hypothesis RuleBasedStateMachine: region depth D in 2..8 (thorough ..10
         "and RA wrap, radii 0.3..25 pixel sizes (<= 60 deg). Model = Python set of level-D pixel ids built with healpy directly. "
         "After every step: get_demoted of a deep copy == model, all stored ids integral and in range, stored pixels do not "
         "overlap (nothing represented twice), get_area == |model| x pixel area, membership answers == model. "
-        "'exhaustive3' enumerates ALL sequences of length <= 3 over a 10-op alphabet at D=3 (1110 histories). "
+        "'exhaustive3' enumerates ALL sequences of length <= 3 over a 12-op alphabet at D=3 (1884 histories). "
         "Non-trivial = a mutating op after a query, or a mixed-depth union, or a pickle round trip; distinct = distinct history.")
 ASSUMPTIONS = [
     "primitive -> pixel list comes from healpy directly (C09 covers the geometry; C08 is about the algebra, normal form, caches)",
@@ -150,6 +150,38 @@ def make_machine(rec_cb, maxD, raise_bucket=None, minD=2, exports=False, test="h
                 picks = picks[:4]
             self.step({"op": "sky_within", "picks": picks, "form": form})
 
+        @rule(picks=st.lists(st.integers(0, 2 ** 40), min_size=1, max_size=4), how=st.sampled_from(["symdiff", "without-add"]),
+              pre=st.sampled_from(["sky_within", "sky_within", "get_demoted", "none"]))
+        def swap(self, picks, how, pre):
+            """an edit that keeps the NUMBER of level-D pixels: k members out, k non-members in, with a membership query
+            before and a query of exactly those pixels after (anything keyed on the size of the set goes stale here)"""
+            D, model = self.h.D, self.h.model
+            if not model or self.h.violations:
+                return
+            npix = 12 * 4 ** D
+            members = sorted(model)
+            out = sorted({members[v % len(members)] for v in picks})
+            inn = []
+            for v in out:
+                q = (v + 1) % npix
+                while q in model or q in inn:
+                    q = (q + 1) % npix
+                    if q == v:
+                        return
+                inn.append(q)
+            if pre == "sky_within":
+                self.step({"op": "sky_within", "picks": picks, "form": "degin", "pixels": out + inn})
+            elif pre == "get_demoted":
+                self.step({"op": "get_demoted"})
+            if how == "symdiff":
+                self.step({"op": "symdiff", "prim": {"kind": "pixels", "pix": out + inn}, "opdepth": D, "ins_depth": None,
+                           "queried": False})
+            else:
+                self.step({"op": "without", "prim": {"kind": "pixels", "pix": out}, "opdepth": D, "ins_depth": None,
+                           "queried": False})
+                self.step({"op": "add", "prim": {"kind": "pixels", "pix": inn}, "depth": D})
+            self.step({"op": "sky_within", "picks": picks, "form": "degin", "pixels": out + inn})
+
         @rule()
         def get_demoted(self):
             self.step({"op": "get_demoted"})
@@ -259,6 +291,9 @@ def alphabet3():
         {"op": "symdiff", "prim": c1, "opdepth": 3, "ins_depth": None, "queried": False},
         {"op": "sky_within", "picks": [1, 5, 77, 300, 12345, 99], "form": "degin"},
         {"op": "pickle"},
+        # a size-preserving edit (7 out, 8 in when the block is present) and a query of exactly those pixels
+        {"op": "symdiff", "prim": {"kind": "pixels", "pix": [7, 8]}, "opdepth": 3, "ins_depth": None, "queried": False},
+        {"op": "sky_within", "picks": [3, 4], "form": "vector", "pixels": [7, 8, 100, 104, 0]},
     ]
 
 
